@@ -1,1 +1,85 @@
-From GV Require Import Pool.Model Pool.Observe Pool.Monitors.
+From GV Require Import Pool.Model Pool.Observe Pool.Monitors Pool.Reduce Pool.LegalRun Pool.KeyedFacts Pool.InvC01.
+
+(* C01: after every operation the balancer's binding table (key -> connection)
+   is, key for key, "the channel the key was bound on" (as the monitor tracks it
+   from BIND / UNBIND completions) composed with "current connection of that
+   channel" -- in particular it follows a refresh swap; and a BOUND/UNBIND call
+   carrying a bound key whose home channel is READY is placed on the home
+   channel's connection or not at all, the most recently published picker does
+   place it, and with fallback off and the home channel not READY it is not placed.
+   For every map-iteration oracle.  Guards:
+   - the history is harness-legal (no operation is answered RBadOp);
+   - the pool holds fewer than 2^64 connections in every state of the run (the
+     evaluator's counters are uint64: with 2^64 READY connections the balancer
+     publishes the error picker, see InvC01.evaluator_wraps). *)
+Theorem C01_holds : forall raw ops,
+  legal raw ops ->
+  Forall (fun s => Z.of_nat (length (b_scstates s)) < W64)%Z (run_states raw init_bal ops) ->
+  monitor P01 raw (observe init_bal) (run raw init_bal ops) = true.
+Proof. exact C01_holds_proof. Qed.
+Print Assumptions C01_holds.
+
+(* non-vacuity: key 7 is bound on channel 1; keyed calls on the current and on a
+   stale picker go there; the channel is refreshed (connection 1 -> 2) and the
+   binding follows; home not READY with fallback off: not placed; UNBIND; the
+   key is then routed by load *)
+Example c01_history :
+  let raw := Some (mkConfig 2 4 100 false 1 1 false
+                     [(1%N, mkMcfg BIND true); (2%N, mkMcfg BOUND true); (3%N, mkMcfg UNBIND true)]) in
+  let ops := [(OpResolver 1 CfgVal, []); (OpConnState 0 Ready, []); (OpConnState 1 Ready, [1; 0]%nat);
+              (OpPick 1 1 true [] None false, []); (OpDone 0 DOk [7%N], []);
+              (OpPick 1 2 true [7%N] None false, []); (OpPick 0 2 true [7%N] None false, []);
+              (OpPick 1 2 true [7%N] (Some 5%Z) false, []); (OpAdvance 2000000, []);
+              (OpDone 3 DDeadlineClient [], []); (OpConnState 2 Ready, []);
+              (OpPick 1 2 true [7%N] None false, []); (OpConnState 2 Connecting, []);
+              (OpPick 2 2 true [7%N] None false, []); (OpConnState 2 Ready, []);
+              (OpPick 3 3 true [7%N] None false, []); (OpDone 5 DOk [], []);
+              (OpPick 3 2 true [7%N] None false, [])] in
+  map ev_ret (run raw init_bal ops) =
+    [RNone; RNone; RNone; RPicked 1; RNone; RPicked 1; RPicked 1; RPicked 1; RNone; RNone; RNone;
+     RPicked 2; RNone; RNoSubConn; RNone; RPicked 2; RNone; RPicked 0] /\
+  map (fun s => b_aff s) (run_states raw init_bal ops) =
+    [[]; []; []; []; []; [(7, 1)]; [(7, 1)]; [(7, 1)]; [(7, 1)]; [(7, 1)]; [(7, 1)]; [(7, 2)]; [(7, 2)];
+     [(7, 2)]; [(7, 2)]; [(7, 2)]; [(7, 2)]; []; []]%N /\
+  legalb raw ops = true /\
+  monitor P01 raw (observe init_bal) (run raw init_bal ops) = true.
+Proof. vm_compute. repeat split; reflexivity. Qed.
+
+(* the monitor rejects a keyed call placed away from its READY home channel *)
+Example c01_bad_wrong_channel :
+  let cfg := Some (mkConfig 2 4 100 false 0 0 false [(2%N, mkMcfg BOUND true)]) in
+  let o1 := mkObs true 1 2 0 0 Ready [(7%N, 1%N)] [] [(0%N, Ready); (1%N, Ready)] [(0%N, 0%nat); (1%N, 1%nat)]
+                  [mkSlot 0 0 0 0 0 false 0; mkSlot 1 1 0 0 0 false 0]
+                  4294967295 [] false (PSnap [0; 1]%nat) 1 0 true in
+  let o2 := mkObs true 1 2 0 0 Ready [(7%N, 1%N)] [] [(0%N, Ready); (1%N, Ready)] [(0%N, 0%nat); (1%N, 1%nat)]
+                  [mkSlot 0 0 1 0 0 false 0; mkSlot 1 1 0 0 0 false 0]
+                  4294967295 [] false (PSnap [0; 1]%nat) 1 0 true in
+  mon_from P01 cfg (mkMstate [PSnap [0; 1]%nat] (Some (Ready, PSnap [0; 1]%nat)) [] [(7%N, 1%nat)] [] [] false
+                             (Some cfg) 0) o1
+    [mkEvent (OpPick 0 2 true [7%N] None false) [] (RPicked 0) [] (Some o2)] = false.
+Proof. vm_compute. reflexivity. Qed.
+
+(* ... a binding table that did not follow the refresh swap (defect D1 of the unchanged code) *)
+Example c01_bad_stale_binding :
+  let cfg := Some (mkConfig 2 4 100 false 1 1 false [(2%N, mkMcfg BOUND true)]) in
+  let o1 := mkObs true 1 2 0 0 Ready [(7%N, 1%N)] [] [(0%N, Ready); (1%N, Ready)] [(0%N, 0%nat); (1%N, 1%nat)]
+                  [mkSlot 0 0 0 0 0 false 0; mkSlot 1 1 0 0 0 true 0]
+                  4294967295 [(2%N, 1%nat)] true (PSnap [0; 1]%nat) 1 0 true in
+  let o2 := mkObs true 1 2 0 0 Ready [(7%N, 1%N)] [] [(0%N, Ready); (2%N, Ready)] [(0%N, 0%nat); (2%N, 1%nat)]
+                  [mkSlot 0 0 0 0 0 false 0; mkSlot 2 1 0 0 0 false 1]
+                  4294967295 [] true (PSnap [0; 1]%nat) 1 0 true in
+  mon_from P01 cfg (mkMstate [PSnap [0; 1]%nat] (Some (Ready, PSnap [0; 1]%nat)) [] [(7%N, 1%nat)] [] [] false
+                             (Some cfg) 0) o1
+    [mkEvent (OpConnState 2 Ready) [ORemove 1] RNone [] (Some o2)] = false.
+Proof. vm_compute. reflexivity. Qed.
+
+(* ... and a keyed call the most recent picker fails to place although the home channel is READY *)
+Example c01_bad_not_placed :
+  let cfg := Some (mkConfig 2 4 100 false 0 0 false [(2%N, mkMcfg BOUND true)]) in
+  let o1 := mkObs true 1 2 0 0 Ready [(7%N, 1%N)] [] [(0%N, Ready); (1%N, Ready)] [(0%N, 0%nat); (1%N, 1%nat)]
+                  [mkSlot 0 0 0 0 0 false 0; mkSlot 1 1 0 0 0 false 0]
+                  4294967295 [] false (PSnap [0; 1]%nat) 1 0 true in
+  mon_from P01 cfg (mkMstate [PSnap [0; 1]%nat] (Some (Ready, PSnap [0; 1]%nat)) [] [(7%N, 1%nat)] [] [] false
+                             (Some cfg) 0) o1
+    [mkEvent (OpPick 0 2 true [7%N] None false) [] RNoSubConn [] (Some o1)] = false.
+Proof. vm_compute. reflexivity. Qed.
